@@ -86,8 +86,11 @@ def rand_env(rng, nv, ns, nf=0, small=True, nf2=0):
     env = vx.Env([vec() for _ in range(nv)], [scal() for _ in range(ns)], scal(), [vec() for _ in range(nf)],
         [vec() for _ in range(nf)], [vec() for _ in range(nf)], scal())
     for i in range(nf2):
-        for suffix in ("", "_t", "_u", "_tu"):
+        for suffix in [""] + ["_" + k for k in vx.PARTIAL_KEYS]:
             env.g[f"{i}{suffix}"] = vec()
+    for i in range(nf):
+        for n in vx.HIGH_ORDERS:
+            env.g[f"f{i}_d{n}"] = vec()
     return env
 
 
@@ -194,6 +197,25 @@ def process(job):
                     obj = V.vector_diff(one, second) if isv else sympy.sympify(one).diff(second)
                 else:
                     obj = V.vector_diff(base, first, second) if isv else sympy.sympify(base).diff(first, second)
+            elif job["mode"] == "diffn":
+                # a derivative of order >= 3 (possibly in two variables) requested in ONE call
+                base = vx.build(recipe, o)
+                sym_of = {"t": o.par, "u": o.par2}
+                seq = job["orders"]                      # e.g. ["t", "t", "t"] or ["t", "t", "u"]
+                if job.get("twice_form") == "count":
+                    args_ = []
+                    for v_ in seq:
+                        if args_ and args_[-2] is sym_of[v_]:
+                            args_[-1] += 1
+                        else:
+                            args_ += [sym_of[v_], 1]
+                else:
+                    args_ = [sym_of[v_] for v_ in seq]
+                isv = vx.is_vec(recipe)
+                if isv:
+                    obj = V.vector_diff(base, *args_)
+                else:
+                    obj = sympy.sympify(base).diff(*args_)
             elif job["mode"] == "diff2":
                 base = vx.build(recipe, o)
                 if job.get("twice_form", "nested") == "nested":
@@ -227,6 +249,9 @@ def process(job):
         spec = vx.diff_recipe(vx.diff_recipe(recipe))
     elif job["mode"] == "partial":
         spec = vx.diff_recipe(vx.diff_recipe(recipe, "t"), "u")
+    elif job["mode"] == "diffn":
+        for v_ in job["orders"]:
+            spec = vx.diff_recipe(spec, v_)
     want = "v" if vx.is_vec(recipe) else "s"
     c = vx.OutCtx(o)
     try:
@@ -246,19 +271,21 @@ def process(job):
     if job.get("nfun2"):
         atoms["g"] = set(range(job["nfun2"]))
         atoms["par2"] = True
+    if job["mode"] == "diffn":
+        atoms["high"] = True
     in_coq = vx.coq_of_recipe(spec)
     hyps = ""
     quotient = False
     has_norm = bool(vx.norm_args(spec)) or bool(c.norm_args) or bool(c.abs_args)
-    if job["mode"] in ("diff", "diff2", "partial") and c.den_args and not c.abs_args and not vx.norm_args(spec):
+    if job["mode"] in ("diff", "diff2", "partial", "diffn") and c.den_args and not c.abs_args and not vx.norm_args(spec):
         # quotients produced by SymPy's power rule; norms then occur only squared (norm v * norm v), rewritten to v.v
         has_norm = False
-    if job["mode"] in ("diff", "diff2", "partial"):
+    if job["mode"] in ("diff", "diff2", "partial", "diffn"):
         nz = sorted({vx.coq_of_recipe(x) for x in vx.norm_args(recipe)})
         hyps = "".join(f"norm {x} <> 0 -> " for x in nz)
         quotient = bool(nz)
     dens = sorted({vx.coq_of_recipe(d) for d in sdiv_dens(spec)})
-    out_dens = sorted(set(c.den_args) - set(dens)) if job["mode"] in ("diff", "diff2", "partial") else []
+    out_dens = sorted(set(c.den_args) - set(dens)) if job["mode"] in ("diff", "diff2", "partial", "diffn") else []
     hyps += "".join(f"{d} <> 0 -> " for d in dens + out_dens)
     res["statement"] = f"forall {vx.binder(atoms)}, {hyps}{in_coq} = {out_coq}"
     if has_norm:
